@@ -3,6 +3,7 @@ package main
 import (
 	"encoding/json"
 	"fmt"
+	"math/rand"
 	"os"
 	"sort"
 	"strings"
@@ -130,6 +131,7 @@ type Run struct {
 	dumpMax      int
 	dumpResults  []string
 	deadline     time.Time
+	seed         int64
 }
 
 func (w *Worker) push(it *workItem) {
@@ -325,7 +327,11 @@ func newRun(prog *Program, spec *CheckSpec, solverKind string, timeout time.Dura
 }
 
 func (r *Run) execute(jobs []*Job, nworkers int) error {
-	// biggest jobs first is unknown; push in reverse so that job 0 starts first
+	// VERIF_SEED permutes the job order (it never changes which paths are explored)
+	if r.seed != 0 {
+		rng := rand.New(rand.NewSource(r.seed))
+		rng.Shuffle(len(jobs), func(i, j int) { jobs[i], jobs[j] = jobs[j], jobs[i] })
+	}
 	for i := len(jobs) - 1; i >= 0; i-- {
 		r.stack = append(r.stack, &workItem{job: jobs[i]})
 	}
@@ -337,6 +343,9 @@ func (r *Run) execute(jobs []*Job, nworkers int) error {
 			defer wg.Done()
 			tctx := NewTermCtx()
 			s, err := NewSolver(r.solverKind, tctx, r.timeout)
+			if err == nil && r.seed != 0 {
+				s.setSeed(r.seed)
+			}
 			if err != nil {
 				errs <- err
 				r.mu.Lock()
